@@ -13,6 +13,7 @@ mod chunks;
 mod counts;
 mod flat;
 mod paths;
+mod pruning;
 mod roundtrip;
 mod util;
 
@@ -46,6 +47,8 @@ fn main() {
             binning::large(ctx, 3, 2);
             binning::large(ctx, 20, 3);
         }
+
+        pruning::run(ctx);
 
         // ---- (ii) -----------------------------------------------------------------------------------
         chunks::run(ctx);
